@@ -131,13 +131,24 @@ def planted_cases(draw):
     alg = draw(st.sampled_from(ALGS))
     C = draw(st.sampled_from([10, 12, 30, 60, 100, 101, 1000, 1200]))
     m = draw(st.integers(2, 120))
-    style = draw(st.sampled_from(["mixed", "pairs+fill", "triples", "many-small"]))
+    style = draw(st.sampled_from(["mixed", "pairs+fill", "triples", "many-small", "thirds+halves"]))
+    if style == "thirds+halves":
+        C = draw(st.sampled_from([12, 30, 60, 120, 1200]))         # divisible by 2 and 3: items of exactly a third / a half of the bin
     parts = []
     for _ in range(m):
         if style == "pairs+fill":          # two items just below half the bin and small fillers
             a = draw(st.integers(max(1, C // 2 - max(1, C // 20)), max(1, (C - 1) // 2)))
             rest = C - 2 * a
             parts += [a, a] + ([1] * rest if rest <= 6 else [rest // 2, rest - rest // 2])
+        elif style == "thirds+halves":     # medium-rich, small-poor: mostly three exact thirds, some two exact halves, few bins of small items
+            r = draw(st.integers(0, 9))
+            if r < 7:
+                parts += [C // 3] * 3
+            elif r < 9:
+                parts += [C // 2] * 2
+            else:
+                q = max(1, C // 12)
+                parts += [q] * (C // q) + ([C - q * (C // q)] if C % q else [])
         elif style == "triples":           # three items around a third of the bin
             a = draw(st.integers(max(1, C // 3 - max(1, C // 20)), max(1, C // 3)))
             b = draw(st.integers(max(1, C // 3 - max(1, C // 20)), max(1, C // 3)))
@@ -200,7 +211,7 @@ def legs(tier):
             "bin size and the class thresholds; OPT from the exact bitmask DP; oracle: valid cover, reported BinCount <= OPT, bins >= (OPT-1)/2 | 2/3(OPT-1) | 3/4 OPT - 4; non-trivial = OPT >= 2 and fewer bins than OPT",
             strategy=small_cases(), n_quick=4000, n_thorough=80000, valid=valid, shrink=shrink, floor=0.03, target=True),
         Leg("planted", evaluate,
-            "hypothesis: 2-120 exactly-full bins (mixed cuts; two near-halves + fillers; three near-thirds; many small) plus up to 4 "
+            "hypothesis: 2-120 exactly-full bins (mixed cuts; two near-halves + fillers; three near-thirds; many small; exact thirds and halves with few small items) plus up to 4 "
             "extra items placed first / last / scattered, in shuffled / as-built / ascending / descending order (up to ~1400 items): a cover "
             "with m bins exists, floor(total/binsize) bounds OPT from above; same oracle and rule",
             strategy=planted_cases(), n_quick=1200, n_thorough=24000, valid=valid, shrink=shrink, floor=0.03),
